@@ -13,3 +13,4 @@ INVARIANT FairOK
 INVARIANT ResampleOK
 INVARIANT Drift_RandomPair
 INVARIANT Drift_RandomClifford
+INVARIANT MarginalOK
